@@ -49,7 +49,7 @@ def check(ctx):
     ctx.check(len(sc) == 1 and sc[0].startswith("self.__count_solutions(self.crossing_size, self._components_shape, self._pmemo, "), R, en, "round count",
               "round count = __count_solutions(crossing size, the round's shape, the round's memo, ..)", "self._solution_count is `%s`" % (sc[0][:120] if sc else sc))
     lc = Fe.assigns("self._leftover_solution_count")
-    ctx.check(len(lc) == 2 and lc[0] == "1" and lc[1] == "self.__count_solutions((block.trials_per_sample() - preamble_size)%(self.crossing_size), self._leftover_components_shape, self._leftover_pmemo, None, None)",
+    ctx.check(len(lc) == 2 and lc[0] == "1" and lc[1] == "self.__count_solutions((block.trials_per_sample() - ite(([] == block.crossings), 0, self.preamble_sizes[self._partitions.main_crossing]))%(self.crossing_size), self._leftover_components_shape, self._leftover_pmemo, None, None)",
               R, en, "leftover count", "leftover count = 1 without leftover, else __count_solutions(leftover, its own shape and memo)", "leftover count is %s" % lc)
     raw = [s for s in Fe.stmts if isinstance(s, ast.Assign) and dotted(s.targets[0]) in ("self._solution_count", "self._leftover_solution_count") and isinstance(s.value, ast.Call)]
     shapes = [[ast.unparse(a) for a in s.value.args][:3] for s in raw]
@@ -126,7 +126,7 @@ def check(ctx):
                       "(drawn range and counted range differ)" % (lo, hi), c)
     cs = ctx.fn("random:UCSolutionEnumerator.__count_solutions")
     Fc = Facts(cs)
-    fact(ctx, R, cs, "crossings_shape", Fc.assigns("components_shape.crossings_shape"), ["permutations"], "the permutation count is what crossings_shape holds")
+    fact(ctx, R, cs, "crossings_shape", Fc.assigns("components_shape.crossings_shape"), ["ite(((1 == self.__complex_crossing_instances) and self._crossing_is_unweighted), ite((first_n != len(self._crossing_instances)*self.__complex_crossing_instances), (factorial(len(self._crossing_instances)*self.__complex_crossing_instances))//(factorial(-first_n + len(self._crossing_instances)*self.__complex_crossing_instances)), factorial(len(self._crossing_instances)*self.__complex_crossing_instances)), count_prefixes_of_permutations_with_copies(len(self._crossing_instances), self._m_or_counters, first_n, pmemo))"], "the permutation count is what crossings_shape holds")
     app = [e for e in Fc.exprs() if e.startswith("components_shape.")]
     ctx.check(app == ["components_shape.combinations_shapes.append(len(list(range(len(self._source_combinations)))))", "components_shape.independent_shapes.append(pow(len(%s), first_n))" % "list(filter(lambda l: not(self._block.is_excluded_combination({f: l})), f.levels))"]
               or (len(app) == 2 and app[0].startswith("components_shape.combinations_shapes.append(len(") and app[1].startswith("components_shape.independent_shapes.append(pow(len(")),
